@@ -122,7 +122,9 @@ def record(ctx, pid):
     """Build the driver and record real executions. Returns (dir, n_cases, driver_problem)."""
     tb = goharness.ext_test_build(ctx, "taskengine")
     out = ctx.subdir("traces")
-    cases = ctx.pick(30, 700)
+    cases = ctx.pick(30, 300)
+    if pid == "C07":
+        cases = ctx.pick(30, 120)   # every case checkpoints through the real overlord backend (slower)
     test = "^TestVerifSerialize$" if pid == "C07" else "^TestVerifEngine$"
     rc, o = goharness.run_test_bin(ctx, tb, test, env={"VERIF_OUT_DIR": out, "VERIF_CASES": cases},
                                    timeout=ctx.pick(600, 3000))
